@@ -18,7 +18,7 @@ def base_desc(rnd):
     s.reads = ["src/hdr.h"]
     s.deps_style = "makefile"
     tf = lambda pr: "true" if rnd.random() < pr else "false"
-    s.attrs.update({"description": "RUN S", "allow-missing-inputs": tf(0.3), "allow-modified-outputs": tf(0.3), "always-out-of-date": "false", "can-safely-interrupt": tf(0.7)})
+    s.attrs.update({"description": "RUN S", "allow-missing-inputs": tf(0.3), "allow-modified-outputs": tf(0.3), "always-out-of-date": "false", "can-safely-interrupt": tf(0.7), "control-enabled": tf(0.6)})
     if rnd.random() < 0.3:
         s.attrs["working-directory"] = "."
     dn = Cmd("D", "shell", inputs=["out/s.o"], outputs=["out/d.o"], salt="d")
@@ -55,6 +55,8 @@ def mutations():
     def amo(d): return flip(d, "allow-modified-outputs")
     def aood(d): d.cmds["S"].attrs["always-out-of-date"] = "true"; return "S"
     def csi(d): return flip(d, "can-safely-interrupt")
+    def wdir(d): a = d.cmds["S"].attrs; a["working-directory"] = "./" if a.get("working-directory") == "." else "."; return "S"   # same directory, another definition
+    def ctl(d): return flip(d, "control-enabled")
     def rename(d):
         items = list(d.cmds.items()); d.cmds = {}
         for n, v in items:
@@ -69,7 +71,7 @@ def mutations():
             ("env: value", True, envval), ("env: key", True, envkey), ("env: one character moved from key to value", True, envbound), ("inherit-env", True, inherit),
             ("inputs: declared input added", True, addin), ("outputs: declared output added", True, addout), ("node moved from inputs to outputs", True, in2out),
             ("deps-style", True, depstyle), ("allow-missing-inputs", True, ami), ("allow-modified-outputs", True, amo), ("always-out-of-date", True, aood),
-            ("can-safely-interrupt", True, csi), ("name", True, rename),
+            ("can-safely-interrupt", True, csi), ("working-directory", True, wdir), ("control-enabled", True, ctl), ("name", True, rename),
             ("description", False, descr), ("order of commands in the file", False, reorder), ("additional target", False, target), ("description of an unrelated command", False, otherdesc)]
 
 
@@ -274,7 +276,7 @@ def run(tier, replay):
         chk.cov.update(null_builds=nulls, definition_pairs_built=pairs, signature_pairs=sigpairs + sn, structural_signature_pairs=sn, builds=builds, pairs_by_attribute=kinds)
         chk.sample({"attribute": "args: one character moved across the boundary of adjacent arguments", "a": ["--x", "ab", "c"], "b": ["--x", "a", "bc"]})
         chk.cov["rule"] = ("(1) after every successful build of the C08 history workload the same target is rebuilt in a new process: the run log must not grow; (2) description pairs "
-                           "differing in exactly one attribute of one shell command (20 attributes incl. argument/env boundaries, node moved from inputs to outputs, flags that start at a random value and are flipped, rename; "
+                           "differing in exactly one attribute of one shell command (22 attributes incl. argument/env boundaries, node moved from inputs to outputs, flags that start at a random value and are flipped, rename; "
                            "explicit-signature variants), files untouched: signature-relevant -> the command must appear in the run log, irrelevant (description, command order, extra "
                            "target) -> nothing may run; output tampering must re-run the producer and nothing outside its downstream cone; (3) Command::getSignature() observed through "
                            "the delegate for each pair and for 17 structural near-collisions must differ, and be identical across separate processes; distinct = attribute kinds exercised")
